@@ -405,6 +405,8 @@ func (m *monitor) runWorld(w *world, be backend, tols []float64) {
 				tol = jsonGlobalTol
 			}
 			var prev []detection.ScanResult
+			var prevExact *detection.ScanResult
+			prevExactOK := false
 			for k, thr := range thrLadder {
 				if err := be.setThr(thr); err != nil {
 					res.Violate(be.name()+"/set-threshold", fmt.Sprintf("SetThreshold(%v) refused: %v", thr, err), nil)
@@ -448,6 +450,21 @@ func (m *monitor) runWorld(w *world, be backend, tols []float64) {
 					res.Violate(ce.be+"/exact/scan-error", err.Error(), ce.replay(nil))
 					continue
 				}
+				// M (exact mode): its alert set has at most one element; raising the threshold may
+				// empty it but never put a different alert into it
+				if k > 0 && prevExactOK {
+					res.Eval(1)
+					if ex != nil && (prevExact == nil || pairKey(*prevExact) != pairKey(*ex)) {
+						lower := "none"
+						if prevExact != nil {
+							lower = pairKey(*prevExact)
+						}
+						res.Violate(c.be+"/exact/monotonicity",
+							fmt.Sprintf("exact mode reports %s at threshold %s but %s at the lower threshold %s (%s, tolerance %s)", pairKey(*ex), fstr(thr), lower, fstr(thrLadder[k-1]), tc.Name, fstr(tol)),
+							ce.replay(map[string]any{"lower_threshold": thrLadder[k-1]}))
+					}
+				}
+				prevExact, prevExactOK = ex, true
 				if ex == nil {
 					m.checkAlerts(ce, nil, thr)
 					continue
